@@ -392,8 +392,8 @@ class IdSim:
     def sync(self):
         """the specification of ref_node_synchronize_globals: shared ids keep their order, fresh ids follow by rank"""
         old = self.old[0]
-        gone = {u for r in range(self.np) for u in self.unused[r] if u < old}
-        shared = sorted({g for r in range(self.np) for g in self.live[r] if g < old} - gone)
+        # (an id both live and unused only occurs in histories that broke a guard: it keeps a number there)
+        shared = sorted({g for r in range(self.np) for g in self.live[r] if g < old})
         m = {('o', g): i for i, g in enumerate(shared)}
         n = len(shared)
         for r in range(self.np):
